@@ -164,8 +164,16 @@ def bridged_results_len(eng, st, args, kw, node):
 BRL = VFunc("handler", fn=bridged_results_len, name="bridged_results_len")
 RES = 'Ref("Result")'
 
+def _accumulator(fn):
+    import ast
+    names = {n.target.id for n in ast.walk(fn) if isinstance(n, ast.AugAssign) and isinstance(n.target, ast.Name)}
+    return names.pop() if len(names) == 1 else None
+
+
 SHARED_RESULTS = Contract(
     target=f"{NODE}::TestNode.shared_results",
+    # the accumulated list (`results` today) is found by its role: the one name the loop aug-assigns
+    aliases={"results": _accumulator},
     params={"self": Ref("TestNode")},
     requires=[WF_BRIDGED],
     extra_names={"bridged_results_len": BRL},
